@@ -20,6 +20,7 @@ import (
 	"github.com/cosmos/cosmos-sdk/x/authz"
 	banktypes "github.com/cosmos/cosmos-sdk/x/bank/types"
 	"github.com/cosmos/cosmos-sdk/x/group"
+	"github.com/medibloc/panacea-core/v2/app"
 
 	"verifharness/simnet"
 )
@@ -38,12 +39,16 @@ type TxStep struct {
 	Msgs []MsgJSON `json:"msgs"`
 	// SignedMsgs, when set, are what the signers signed; Msgs replaced them afterwards with
 	// the signatures kept (an intermediary tampering with a signed transaction).
-	SignedMsgs []MsgJSON           `json:"signed_msgs,omitempty"`
-	Signers    []simnet.SignerSpec `json:"signers"`
-	Fee        string              `json:"fee,omitempty"`
-	FeePayer   string              `json:"fee_payer,omitempty"`
-	Gas        uint64              `json:"gas,omitempty"`
-	Memo       string              `json:"memo,omitempty"`
+	SignedMsgs []MsgJSON `json:"signed_msgs,omitempty"`
+	// PrimeCheckTx: the genuine transaction (the one the signers signed) is first submitted to
+	// this node's mempool check, as it would be if the intermediary let it through before
+	// substituting the content; the block then carries the substituted transaction only.
+	PrimeCheckTx bool                `json:"prime_check_tx,omitempty"`
+	Signers      []simnet.SignerSpec `json:"signers"`
+	Fee          string              `json:"fee,omitempty"`
+	FeePayer     string              `json:"fee_payer,omitempty"`
+	Gas          uint64              `json:"gas,omitempty"`
+	Memo         string              `json:"memo,omitempty"`
 	// FeeGranter (an account index + 1) names a fee granter; the harness never creates fee
 	// allowances, so on a correct chain such a transaction is refused and nothing moves.
 	FeeGranter int `json:"fee_granter,omitempty"`
@@ -94,6 +99,13 @@ type Violation struct {
 
 func (v *Violation) Error() string { return fmt.Sprintf("[%s] %s", v.Prop, v.Msg) }
 
+// BankSetup is pure data (it is stored in replay files).
+type BankSetup struct {
+	SendDisabled       []string `json:"send_disabled,omitempty"`
+	DefaultSendEnabled bool     `json:"default_send_enabled"`
+	BurnAddressCoins   string   `json:"burn_address_coins,omitempty"`
+}
+
 // Options select which oracles run.
 type Options struct {
 	Prop string // property id whose oracles are enabled
@@ -113,6 +125,10 @@ type Options struct {
 	TwinNode map[string]interface{}
 	// Node: node-local start-up options of the primary instance.
 	Node map[string]interface{}
+	// Bank, when set, edits the bank section of the genesis: denominations whose transfers are
+	// switched off (bank SendEnabled entries, or the default switch), and coins the burn address
+	// holds from the start (as it would after an upgrade, an IBC receipt or a module payout).
+	Bank *BankSetup
 	// PnftGenesis, when set, is installed as the pnft section of the genesis; the PNFT model
 	// is derived from it (owner strings as spelled in the file, valid addresses or not).
 	PnftGenesis json.RawMessage
@@ -215,8 +231,22 @@ func New(opt Options) (*World, error) {
 			g.Node[k] = v
 		}
 	}
-	if opt.Mutate != nil || opt.AolGenesis != nil || opt.DidGenesis != nil || opt.PnftGenesis != nil {
+	if opt.Mutate != nil || opt.AolGenesis != nil || opt.DidGenesis != nil || opt.PnftGenesis != nil || opt.Bank != nil {
 		g.Mutate = func(_ func(interface{}) []byte, gs map[string]json.RawMessage) {
+			if opt.Bank != nil {
+				cdc := app.MakeEncodingConfig().Codec
+				var bg banktypes.GenesisState
+				cdc.MustUnmarshalJSON(gs[banktypes.ModuleName], &bg)
+				bg.Params.DefaultSendEnabled = opt.Bank.DefaultSendEnabled
+				for _, d := range opt.Bank.SendDisabled {
+					bg.SendEnabled = append(bg.SendEnabled, banktypes.SendEnabled{Denom: d, Enabled: false})
+				}
+				if c := parseCoins(opt.Bank.BurnAddressCoins); !c.IsZero() {
+					bg.Balances = append(bg.Balances, banktypes.Balance{Address: BurnAddress, Coins: c})
+					bg.Supply = bg.Supply.Add(c...)
+				}
+				gs[banktypes.ModuleName] = cdc.MustMarshalJSON(&bg)
+			}
 			if opt.AolGenesis != nil {
 				gs["aol"] = opt.AolGenesis
 			}
@@ -511,6 +541,14 @@ func (w *World) applyTx(ts *TxStep) error {
 		w.Label("tx unbuildable")
 		return nil
 	}
+	if ts.PrimeCheckTx && len(signedOuter) > 0 {
+		if genuine, err := w.C.BuildTx(simnet.TxSpec{Msgs: signedOuter, Signers: ts.Signers, Fee: parseCoins(ts.Fee), FeeGranter: feeGranter, TipFrom: tipFrom, TipAmount: parseCoins(ts.TipAmount),
+			FeePayer: ts.FeePayer, Gas: ts.Gas, Memo: ts.Memo}); err == nil {
+			if res := w.C.App.CheckTx(abci.RequestCheckTx{Tx: genuine, Type: abci.CheckTxType_New}); res.Code == 0 {
+				w.Label("genuine tx passed CheckTx before its content was replaced")
+			}
+		}
+	}
 	obs.Res = w.C.DeliverTx(raw)
 	if ts.Group > 0 && obs.Res.Code == 0 {
 		// the transaction succeeds whether or not the proposal's messages ran: they did only if
@@ -550,7 +588,7 @@ func (w *World) applyTx(ts *TxStep) error {
 	}
 	if obs.Tampered {
 		w.Label("tx content replaced after signing")
-		if obs.OK() && (w.On("C02") || w.On("C06") || w.On("C15")) {
+		if obs.OK() && (w.On("C02") || w.On("C06") || w.On("C15") || w.On("C14")) {
 			return &Violation{w.Opt.Prop, fmt.Sprintf("a transaction whose messages were replaced after signing was accepted: the signatures were made over %s, the transaction carries %s", msgsString(signedOuter), msgsString(obs.Outer))}
 		}
 	}
@@ -962,6 +1000,9 @@ func (w *World) WriteReplay(path string, extra map[string]interface{}) error {
 	}
 	if w.Opt.PnftGenesis != nil {
 		doc["pnft_genesis"] = w.Opt.PnftGenesis
+	}
+	if w.Opt.Bank != nil {
+		doc["bank_setup"] = w.Opt.Bank
 	}
 	if len(w.Opt.TwinNode) > 0 {
 		doc["twin_node_options"] = w.Opt.TwinNode
